@@ -2,6 +2,8 @@ package main
 
 import (
 	"fmt"
+	"go/token"
+	"go/types"
 	"golang.org/x/tools/go/ssa"
 	"os"
 )
@@ -146,6 +148,46 @@ func init() {
 			fmt.Println(o.Status, o.Key, o.Pos)
 		}
 		fmt.Println(r.Analysed)
+		os.Exit(0)
+	}
+}
+
+func init() {
+	if len(os.Args) > 2 && os.Args[1] == "divs" {
+		p := Load(LoadOpts{Dir: repoDir(), Patterns: []string{"./..."}, ModPath: modPath, MinPkgs: 13})
+		n := 0
+		for _, f := range p.ModFns() {
+			for _, b := range f.Blocks {
+				for _, in := range b.Instrs {
+					bo, ok := in.(*ssa.BinOp)
+					if !ok || (bo.Op != token.QUO && bo.Op != token.REM) {
+						continue
+					}
+					bt, ok := bo.Type().Underlying().(*types.Basic)
+					if !ok || bt.Info()&types.IsInteger == 0 {
+						continue
+					}
+					if c, ok := intConst(bo.Y); ok && c != 0 {
+						continue
+					}
+					n++
+					fmt.Printf("%s %s : %v / %v (%T)\n", p.IPos(in), p.FnName(f), bo.X, bo.Y, bo.Y)
+				}
+			}
+		}
+		fmt.Println(n)
+		os.Exit(0)
+	}
+}
+
+func init() {
+	if len(os.Args) > 2 && os.Args[1] == "rdiv" {
+		p := Load(LoadOpts{Dir: repoDir(), Patterns: []string{"./..."}, ModPath: modPath, MinPkgs: 13})
+		r := NewReport("X", "quick")
+		ruleDiv(p, r, os.Args[2:], nil, 1)
+		for _, o := range r.Obls {
+			fmt.Println(o.Status, o.Key, o.Pos)
+		}
 		os.Exit(0)
 	}
 }
